@@ -14,3 +14,4 @@ open SSVerif.Align
 #print axioms C04_model_run_hierarchy
 #print axioms C04_word_score_is_acoustic_part_partial
 #print axioms C04_model_run_scores_optimal_partial
+#print axioms C04_word_score_is_best_segment
